@@ -179,7 +179,7 @@ Qed.
    conjunct needs so that the 1054-byte window starts at or before `length pre`).  With it the statement holds:
    rd_find_startxref_fixed_lemma below. *)
 (* the statement without the bound on v (kept as a comment; its last conjunct fails for v >= 2^63, see below):
-Lemma rd_find_startxref_lemma : forall pre v,
+[statement of rd_find_startxref without the bound] forall pre v,
   let tail := rd_s_startxref ++ 10 :: dec_of_N v ++ [10; 37; 37; 69; 79; 70; 10] in
   let file := pre ++ tail in
   let start := if 1054 <? rd_len file then rd_len file - 1054 else 0 in
